@@ -125,9 +125,51 @@ def run(ctx):
                 if bad:
                     sig, what = bad
                     ctx.violation(sig, "%s   case=%s kind=%s action-sets=%s" % (what, json.dumps(cs, sort_keys=True), kind, "A,B,A" if vary else "A,A,A"), dict(case=cs, kind=kind, vary=vary, expected=c["expected"]))
+    # ---- the same meaning one level up: the seed an evaluator is given (or, without one, the experiment's) is the seed of the draw
+    from coba.evaluators import SequentialCB
+    for c in cases:
+        cs = c["case"]
+        if cs["layout"] != "none" or cs["fmt"] not in ("PM", "PM*") or cs.get("oh"): continue
+        for how in ("evaluator-seed", "experiment-seed"):
+            ctx.case(json.dumps([cs, how], sort_keys=True))
+            bad = through_evaluator(SequentialCB, CobaContext, cs, c["expected"], how)
+            if bad:
+                ctx.violation(bad[0], "%s   case=%s" % (bad[1], json.dumps(cs, sort_keys=True)), dict(case=cs, how=how, expected=c["expected"]))
     ctx.traces = ctx.evaluations
     ctx.assumptions += ["learners return the offered action objects themselves; a bare tuple / list / sparse-dict action must use the {'action': ..} hint (the property's own domain rule)",
                         "PMF entries are multiples of 1/4 so that the code's float comparison and the spec's integer comparison coincide"]
+
+
+class _Env:
+    def __init__(self, its): self.its = its
+    @property
+    def params(self): return {}
+    def read(self): return iter([dict(i) for i in self.its])
+
+
+def through_evaluator(SequentialCB, CobaContext, cs, expected, how):
+    """The three calls of a case as three interactions of an environment evaluated by SequentialCB: the recorded action and
+    probability are the draw of the evaluator's seed (how = evaluator-seed; a different experiment seed is in the store)
+    or, for an evaluator without a seed, of the experiment's seed."""
+    nA, seed = cs["nA"], cs["seed"]
+    acts = actions_of("str", nA)
+    rows = sorted((e for e in expected if e["row"] == 1), key=lambda e: e["call"])
+    its = [{"context": 10 * e["call"] + 1, "actions": list(acts), "rewards": [0.5] * nA} for e in rows]
+    lrn = FmtLearner(cs["fmt"], cs["kw"], "none", nA)
+    saved = dict(CobaContext.store)
+    try:
+        CobaContext.store["experiment_seed"] = 99 if how == "evaluator-seed" else seed
+        ev = SequentialCB(record=["action", "probability"], seed=(seed if how == "evaluator-seed" else None))
+        got = list(ev.evaluate(_Env(its), lrn))
+    except Exception as e:
+        return ("evaluator:%s:raises:%s" % (how, type(e).__name__), "SequentialCB raised %s: %s" % (type(e).__name__, str(e)[:150]))
+    finally:
+        CobaContext.store.clear(); CobaContext.store.update(saved)
+    if len(got) != len(rows): return ("evaluator:%s:rows" % how, "%d rows for %d interactions" % (len(got), len(rows)))
+    for i, (g, e) in enumerate(zip(got, rows)):
+        if g.get("action") != acts[e["a"]] or abs(g.get("probability", -1) - e["p"] / 1000) > 1e-12:
+            return ("evaluator:%s:wrong-draw" % how, "interaction %d: recorded (%r, %r); seed %d draws (%r, %r) from the learner's PMF" % (i + 1, g.get("action"), g.get("probability"), seed, acts[e["a"]], e["p"] / 1000))
+    return None
 
 
 def one(SafeLearner, cs, expected, kind, vary=False):
